@@ -3,6 +3,9 @@ package props
 import (
 	"fmt"
 
+	channeltypes "github.com/cosmos/ibc-go/v11/modules/core/04-channel/types"
+	channeltypesv2 "github.com/cosmos/ibc-go/v11/modules/core/04-channel/v2/types"
+
 	"verif/harness/core"
 	"verif/harness/ksim"
 )
@@ -14,6 +17,25 @@ func c11Scenario(routes []int, nPkts, commits int, kinds ...string) *PL {
 	sc := &PL{Routes: routes, MaxSend: nPkts, MaxCommits: commits, Stale: false, Acks: true, AsyncAck: true, DataKinds: kinds, CommitOn: []int{0, 1}}
 	sc.StepFn = func(s *PL, pre *ksim.World, op ksim.Op, r ksim.Result, post *ksim.World) *ksim.Fail {
 		kb := pre.W.Chains[1].App.IBCKeeper
+		if r.Class == ksim.OK || r.Class == ksim.NOOP {
+			// a committed transaction announces at most one acknowledgement per packet
+			seen := map[string]int{}
+			for _, ev := range r.Events {
+				if ev.Type != channeltypes.EventTypeWriteAck && ev.Type != channeltypesv2.EventTypeWriteAck {
+					continue
+				}
+				id := ev.Type
+				for _, a := range ev.Attributes {
+					switch a.Key {
+					case channeltypes.AttributeKeyDstChannel, channeltypes.AttributeKeySequence, channeltypesv2.AttributeKeyDstClient:
+						id += "|" + a.Key + "=" + a.Value
+					}
+				}
+				if seen[id]++; seen[id] > 1 {
+					return &ksim.Fail{Key: "two-acks-written-in-one-transaction", Text: fmt.Sprintf("%s committed and emitted %d write_acknowledgement events for %s", op, seen[id], id)}
+				}
+			}
+		}
 		for i, p := range ext(pre).Pkts {
 			before, after := s.ackCommitment(pre, p), s.ackCommitment(post, p)
 			if before != "" && after != before {
@@ -66,11 +88,13 @@ func runC11(c *core.C) {
 		{Name: "macro/v1-ordered", Sc: macro(c11Scenario([]int{rV1O}, 2, 3, "async", "ok")), Cfg: ksim.Config{MaxDepth: 7 + d}, Share: 0.25},
 		{Name: "macro/v2-client", Sc: macro(c11Scenario([]int{rV2C}, 2, 3, "async", "ok")), Cfg: ksim.Config{MaxDepth: 8 + d}, Share: 0.33},
 		{Name: "macro/v2-alias+v1", Sc: macro(c11Scenario([]int{rV2A, rV1U}, 1, 3, "async", "ok")), Cfg: ksim.Config{MaxDepth: 7 + d}, Share: 0.5},
-		{Name: "micro/v2-client", Sc: c11Scenario([]int{rV2C}, 1, 2, "async"), Cfg: ksim.Config{MaxDepth: 8 + d}},
+		{Name: "micro/v2-client", Sc: c11Scenario([]int{rV2C}, 1, 2, "async"), Cfg: ksim.Config{MaxDepth: 8 + d}, Share: 0.6},
+		// v1 applications that write the acknowledgement themselves while still inside the receive callback
+		{Name: "macro/v1-app-writes-inside-recv", Sc: macro(c11Scenario([]int{rV1U, rV1O}, 1, 3, "wok", "wasync", "wfail")), Cfg: ksim.Config{MaxDepth: 7 + d}},
 	}
 	ksim.RunParts(c, parts, [][]ksim.Op{
 		{{K: "send", A: []int{3, 0, 0}}, {K: "wack", A: []int{0, 0}}, {K: "commit", A: []int{0}}, {K: "update", A: []int{1, 13}}, {K: "recv", A: []int{0, 13}}, {K: "wack", A: []int{0, 0}}, {K: "wack", A: []int{0, 1}}},
 	})
-	c.Set("alphabet", "send(async|sync) | commit | update | recv | wack(packet, ack in {a1,a2}) = application writes an acknowledgement through the asynchronous path (also before the receive, also repeatedly) | ack relay")
+	c.Set("alphabet", "send(async|sync) | commit | update | recv | wack(packet, ack in {a1,a2}) = application writes an acknowledgement through the asynchronous path (also before the receive, also repeatedly) | v1 applications that write the acknowledgement inside the receive callback and answer success / nothing / failure | ack relay")
 	c.Assume("counterparty consensus, storage commit and validator signing are played by the harness; one message per transaction")
 }
